@@ -210,3 +210,54 @@ def scenario_gen(fn, n_quick, n_thorough):
     def gen(rng, tier):
         return [fn(rng, tier) for _ in range(n_quick if tier == 'quick' else n_thorough)]
     return gen
+
+
+# ------------------------------------------------------------------------------------------------ labels in front of statements
+def gen_label_scenario(rng, tier='quick'):
+    """non-local labels directly followed by statements that refer to local labels of the region the label opens (defined
+    before or after the reference), so that it matters to which region the statement behind a label belongs -- whether
+    the label stands on its own line or in front of the statement"""
+    cfg = base_cfg(rng, {'p_zones': 0.0, 'p_data': 0.0})
+    cfg['page'] = 1
+    cfg['embedded'] = False
+    st = []
+    byte = [0x30]
+
+    def data():
+        byte[0] = (byte[0] + 1) & 0xFF
+        return ['data', 1, [num(byte[0])]]
+
+    def ref(name):
+        r = rng.random()
+        if r < 0.4:
+            return ['instr', 'jmp', [('lab', name)]]
+        if r < 0.7:
+            return ['data', 2, [('lab', name)]]
+        if r < 0.85:
+            return ['instr', 'lea', [('bin', '+', ('lab', name), ('num', '1'))]]
+        return ['fill', num(2), ('lab', name)]
+    globals_ = ['first', 'second', '_third', 'fourth', '_fifth']
+    rng.shuffle(globals_)
+    for g in globals_[:rng.randint(2, 5)]:
+        st.append(['label', g])
+        loc = rng.choice(['.t', '.x'])
+        order = rng.random()
+        if order < 0.45:
+            # reference directly behind the non-local label, definition later in the region
+            st.append(ref(loc))
+            if rng.random() < 0.5:
+                st.append(data())
+            st += [['label', loc], data()]
+        elif order < 0.8:
+            st += [['label', loc], data(), ref(loc)]
+        else:
+            st.append(data())
+        if rng.random() < 0.3:
+            st.append(['instr', 'nop', []])
+    fault = 'label-lines'
+    if rng.random() < 0.15:
+        # a reference to a local label that only an earlier region defines
+        st += [['label', 'last'], ref(rng.choice(['.t', '.x']))]
+        fault = 'label-lines-foreign-local'
+    return {'cfg': cfg, 'files': [{'name': 'main.asm', 'dir': 'src', 'stmts': st}], 'include_dirs': ['lib'], 'extra_files': [],
+            'fault': fault, 'opts': _opts(rng, cfg)}
